@@ -99,6 +99,33 @@ def compose(a, b):
 IDENT = ((1, 0, 0), (0, 1, 0), (0, 0, 1))
 
 
+def closed_fast(ops):
+    """exact closure test of a list of exact operations (vectorised int64 arithmetic on translations x 24): no duplicates and every
+    product of two operations, translation reduced mod 1, is in the list"""
+    n_ = len(ops)
+    R = np.array([o[0] for o in ops], dtype=np.int64)
+    T = np.array([[int(x * 24) for x in o[1]] for o in ops], dtype=np.int64)
+    if any((x * 24).denominator != 1 for o in ops for x in o[1]):
+        return False
+
+    def keys(Rm, Tm):
+        k = np.zeros(len(Rm), dtype=np.int64)
+        for v in (Rm.reshape(len(Rm), 9) + 2).T:
+            k = k * 5 + v
+        for v in (Tm % 24).T:
+            k = k * 24 + v
+        return k
+
+    own = keys(R, T)
+    if len(np.unique(own)) != n_:
+        return False
+    RR = np.einsum("aij,bjk->abik", R, R).reshape(n_ * n_, 3, 3)
+    TT = (np.einsum("aij,bj->abi", R, T) + T[:, None, :]).reshape(n_ * n_, 3)
+    if np.abs(RR).max() > 2:
+        return False
+    return bool(np.isin(keys(RR, TT), own).all())
+
+
 def neg(R):
     return tuple(tuple(-x for x in row) for row in R)
 
